@@ -150,6 +150,14 @@ def run(ctx):
     hs = V.harness(ctx, ["as-hist", "-out", hist, "-seed", ctx.seed, "-n", nh, "-steps", steps, "-workers", V.NCPU])
     hl = validate(ctx, hist, "V-hist", "history")
     ctx.cov["samples"].append([json.loads(x) for x in hl[:6]])
+    # Leg C (C09): two concurrent /sign_in requests for the same e-mail, one with an accepted and one with a revoked token
+    if pid == "C09":
+        pairs = os.path.join(ctx.scratch, "pairs.ndjson")
+        pr = V.harness(ctx, ["as-pairs", "-out", pairs, "-seed", ctx.seed, "-n", 200 if quick else 4000, "-workers", 8])
+        validate(ctx, pairs, "V-pairs", "concurrent-pair")
+        ctx.cov["concurrent_pairs"] = pr["executed"]
+        from checks import sso
+        sso.leg(ctx)
     for smp in ctx.cov["samples"]:
         for rec in (smp if isinstance(smp, list) else [smp]):
             if isinstance(rec, dict) and rec.get("conc"):
